@@ -917,17 +917,21 @@ class Unit:
         loops = find_loops(toks, bo + 1, be)
         for k, lines in fs.loops.items():
             if k < 1 or k > len(loops):
+                if len(loops) == 0:
+                    continue    # the loop is gone altogether: its invariants go with it, the function's ensures still stand
                 raise Undecided("lost anchor: loop %d of %s (function has %d loops)" % (k, qual, len(loops)))
             lb = loops[k - 1][1]
             edits.append(Edit(lb, lb, "\n" + tpl_text(lines), ("tpl", relname, lines[0][1] - 1)))
         for k, lines in fs.loopentry.items():
             if k < 1 or k > len(loops):
+                if len(loops) == 0:
+                    continue
                 raise Undecided("lost anchor: loop %d of %s" % (k, qual))
             lb = loops[k - 1][1]
             edits.append(Edit(lb + 1, lb + 1, "\n" + tpl_text(lines), ("tpl", relname, lines[0][1] - 1)))
         if fs.loops and len(loops) != max(fs.loops):
             # contracts were written for a different loop structure
-            if len(loops) != len(fs.loops) and len(loops) < max(fs.loops):
+            if loops and len(loops) != len(fs.loops) and len(loops) < max(fs.loops):
                 raise Undecided("loop structure of %s changed" % qual)
         # closures
         cls = find_closures(toks, bo + 1, be)
